@@ -258,7 +258,8 @@ def table_valid(t):
 _BN = [("add_node", (10, 4)), ("add_nodes", (6, 2)), ("add_edge", (24, 10)), ("add_edges", (8, 4)),
        ("add_cpd", (12, 10)), ("complete", (3, 7)), ("remove_node", (3, 9)), ("remove_nodes", (1, 3)),
        ("remove_cpds", (3, 6)), ("do", (3, 9)), ("copy", (5, 8)), ("random_cpds", (3, 6)),
-       ("check_model", (4, 5)), ("query", (3, 7)), ("get_cpds", (2, 2)), ("edit_cpd", (1, 4))]
+       ("check_model", (4, 5)), ("query", (3, 7)), ("get_cpds", (2, 2)), ("edit_cpd", (1, 4)),
+       ("rewire", (2, 7)), ("reregister", (1, 4))]
 OP_TABLE = {
     "bn": _BN,
     "dag": _BN + [("construct", (14, 9))],
@@ -441,6 +442,8 @@ class History:
         for e in list(self.pool):
             if not self.check_i1(e, label, plan, pre if e is ent else None):
                 cont = False
+        for e in self.pool:
+            self.check_registry(e, label)
         if inv_fired and cont:
             raise RuntimeError(f"class invariant fired but the checker sees no cycle ({label})")
         # new object
@@ -452,6 +455,7 @@ class History:
                 new_ent = self.add_obj(r, plan.label, rng)
                 if not self.check_i1(new_ent, label + " (result)", plan, pre):
                     cont = False
+                self.check_registry(new_ent, label + " (result)")
         # I3
         if not failed and cont and plan.info.get("i3"):
             post_ent = new_ent if plan.new else ent
@@ -496,6 +500,36 @@ class History:
             ctx.violation(key, f"{label}: {cls} holds the directed cycle {[nk(n) for n in cyc]!r}")
             return False
         return True
+
+    # ---------------------------------------------------------------- CPD registry (registration / replacement)
+    def check_registry(self, e, label):
+        """Per node, the CPDs registered on a BayesianNetwork: add_cpds replaces the CPD of a variable, and
+        remove_node drops it, so at no time may a node own two CPDs or a CPD belong to a non-node.
+        (DynamicBayesianNetwork.add_cpds appends by design; its leftovers are judged by I3 only.)"""
+        if type(e.o).__name__ != "BayesianNetwork":
+            return
+        ctx = self.ctx
+        flagged = self.__dict__.setdefault("_flagged", set())
+        count = {}
+        for t in e.snap.tables:
+            count[repr(t.get("var"))] = count.get(repr(t.get("var")), 0) + 1
+        bad = False
+        for t in e.snap.tables:
+            var = t.get("var")
+            rv_ = repr(var)
+            if count[rv_] > 1 and (e.serial, "dup", rv_) not in flagged:
+                flagged.add((e.serial, "dup", rv_))
+                bad = True
+                scopes = [[repr(v) for v in x["vars"]] for x in e.snap.tables if repr(x.get("var")) == rv_]
+                ctx.violation("c15:duplicate-cpd", f"{label}: object #{e.serial} holds {count[rv_]} CPDs for node {var!r} "
+                              f"(scopes {scopes}); registering a CPD must replace the node's previous one")
+            if var not in e.snap.nodeset and (e.serial, "orphan", rv_) not in flagged:
+                flagged.add((e.serial, "orphan", rv_))
+                bad = True
+                ctx.violation("c15:orphan-cpd", f"{label}: object #{e.serial} holds a CPD for {var!r}, which is not a "
+                              f"node of the graph")
+        if not bad:
+            ctx.ok()
 
     def dbn_mirror_cycle(self, o, cyc, pre):
         """The cycle lies in one slice while the other slice's image of it is not a cycle, i.e. the two
@@ -583,6 +617,12 @@ class History:
         for t in pre.tables:
             pre_count[repr(t.get("var"))] = pre_count.get(repr(t.get("var")), 0) + 1
         checked = 0
+        left = pre.nodeset - post.nodeset
+        for var in sorted(left, key=repr):                 # leftover CPDs of nodes that left the graph in this step
+            now = post_by_var.get(repr(var), [])
+            if now and (pre_count.get(repr(var), 0) != 1):  # (the single consistent case is judged below)
+                ctx.violation(key("c15:i3-orphan-cpd"),
+                              f"{label}: node {var!r} left the graph but {len(now)} CPD(s) for it are still attached")
         for t in pre.tables:
             var = t.get("var")
             rv_ = repr(var)
@@ -886,6 +926,71 @@ class History:
         p = rng.choice(sorted(c.variables[1:], key=rk))
         return Plan(lambda: c.marginalize([p], inplace=True),
                     f"get_cpds({nk(c.variable)!r}).marginalize([{nk(p)!r}], inplace=True)")
+
+    def _cpd_nodes(self, ent):
+        """[(node, cpd object)] for graph nodes that own a CPD (first registered one), sorted by node."""
+        out, seen = [], set()
+        have = {repr(nk(n)) for n in ent.o._node}
+        for c in getattr(ent.o, "cpds", []):
+            v = nk(c.variable)
+            if repr(v) in have and repr(v) not in seen:
+                seen.add(repr(v))
+                out.append((v, c))
+        return sorted(out, key=lambda x: repr(x[0]))
+
+    def bn_rewire(self, ent, st, rng):
+        """Add or remove an edge INTO a node that already owns a CPD (its CPD becomes stale); the generator
+        schedules a `reregister` step on the same object right after."""
+        o = ent.o
+        owners = self._cpd_nodes(ent)
+        if not owners:
+            return self.bn_add_edge(ent, st, rng)
+        present = self._present(ent)
+        succ, reach = self._reach(ent)
+        rng.shuffle(owners)
+        for v, c in owners:
+            pa = self._parents(ent, v)
+            if pa and st["flag"]:
+                p = rng.choice(pa)
+                return Plan(lambda: o.remove_edge(p, v), f"remove_edge({p!r}, {v!r}) [into CPD owner]")
+            cand = [u for u in present if u != v and u not in pa and u not in reach[v]]
+            if cand:
+                u = rng.choice(cand)
+                return Plan(lambda: o.add_edge(u, v), f"add_edge({u!r}, {v!r}) [into CPD owner]")
+            if pa:
+                p = rng.choice(pa)
+                return Plan(lambda: o.remove_edge(p, v), f"remove_edge({p!r}, {v!r}) [into CPD owner]")
+        return self.bn_add_edge(ent, st, rng)
+
+    def bn_reregister(self, ent, st, rng):
+        """add_cpds with a fresh CPD that is consistent with the node's CURRENT graph parents, for a node that
+        already owns a CPD: preferably one whose parent set changed since, else the same parents in another order."""
+        o = ent.o
+        owners = self._cpd_nodes(ent)
+        if not owners:
+            return self.bn_add_cpd(ent, dict(st, bad=False), rng)
+        changed = [(v, c) for v, c in owners if {repr(nk(x)) for x in c.variables[1:]} != {repr(p) for p in self._parents(ent, v)}]
+        multi = [(v, c) for v, c in owners if len(self._parents(ent, v)) >= 2]
+        if changed and (not multi or st["m"] % 4 != 0):
+            v, c = rng.choice(changed)
+            pa = self._parents(ent, v)
+            rng.shuffle(pa)
+            mode = "parent set changed"
+        elif multi:
+            v, c = rng.choice(multi)
+            pa = self._parents(ent, v)
+            old = [nk(x) for x in c.variables[1:]]
+            rng.shuffle(pa)
+            if pa == old:
+                pa = pa[1:] + pa[:1]
+            mode = "same parents, other order" if {repr(x) for x in old} == {repr(x) for x in pa} else "parent set changed"
+        else:
+            v, c = rng.choice(owners)
+            pa = self._parents(ent, v)
+            mode = "same scope"
+        self.ctx.feature("reregister:" + mode)
+        new = self.make_cpd(v, pa, rng)
+        return Plan(lambda: o.add_cpds(new), f"add_cpds(P({v!r} | {pa!r})) [re-register, {mode}]")
 
     def bn_do(self, ent, st, rng):
         o = ent.o
